@@ -192,6 +192,61 @@ func runC17(p *eng.Prog, r *eng.Report, tier string) {
 	}
 	c.r.CheckNamed("C17.2", "styling.(*Decoder).scan", "incomplete fence line waits for more data", "a line that begins with the code fence but whose end has not arrived yet is not classified: scan asks for more data under HasPrefix(data, fence)", 0, fenceWait >= 1, "no need-more-data return under the fence-prefix test: an incomplete fence line is handed on as ordinary text")
 
+	// ---- C17.8 every token that carries scanner data gets its info string ---------
+	// Next builds a Token from the scanner's bytes and computes Info for it when
+	// the style says "start of a preformatted block". A token that is held back
+	// (for the virtual block quote end) must be the token that was built, not a
+	// second literal built later from the bytes alone. Every Token literal with
+	// a Data field reaches a store into a field of the decoder only through the
+	// BlockPreStart test.
+	if nx := c.fn("C17.8", "styling", "(*Decoder).Next"); nx != nil {
+		g := nx.Graph()
+		isInfo := func(q eng.Point, nd ast.Node) bool {
+			found := false
+			ast.Inspect(nd, func(x ast.Node) bool {
+				if idn, ok := x.(*ast.Ident); ok && idn.Name == "BlockPreStart" {
+					found = true
+				}
+				return !found
+			})
+			return found
+		}
+		nl := 0
+		for _, lit := range nx.WalkLits("styling.Token") {
+			if structLitField(lit, "Data") == nil {
+				continue
+			}
+			nl++
+			lp, ok := g.Where(lit)
+			if !ok {
+				continue
+			}
+			bad := ""
+			for _, w := range nx.Writes() {
+				if k, ok := nx.FieldClass(w.LHS); !ok || !strings.HasPrefix(k, "styling.Decoder.") {
+					continue
+				}
+				if t := nx.Info().TypeOf(w.LHS); t == nil || !strings.Contains(eng.TypeStr(t), "styling.Token") {
+					continue
+				}
+				wp, _ := g.Where(w.Stmt)
+				if wp == lp {
+					bad = "the literal is stored at " + c.p.Pos(w.Stmt.Pos()) + " as it is built: no info string is computed for it"
+					break
+				}
+				if g.Reachable(g.After(lp), wp, nil, nil) && !g.MustPassBefore(g.After(lp), wp, isInfo, nil) {
+					// only stores of this literal's variable matter
+					if v := rootLocal(nx, w.RHS); v != nil {
+						if d := g.UniqueDef(v, wp); d != nil && d.RHS != nil && nodeContains(d.RHS, lit) {
+							bad = "the token reaches the store at " + c.p.Pos(w.Stmt.Pos()) + " on a path that skips the info computation"
+						}
+					}
+				}
+			}
+			c.r.Check("C17.8", nx, "token built from scanner data gets its info string", "O: a Token literal that carries data reaches the decoder's token fields only through the BlockPreStart test that computes Info", lit.Pos(), bad == "", bad)
+		}
+		c.r.Floor("C17.8", "token literals with data in Next", nl, 1)
+	}
 	// ---- C17.4b an open span has priority over block-level constructs -----------------
 	if sc := c.fn("C17.4", "styling", "(*Decoder).scan"); sc != nil {
 		nb := 0
